@@ -85,7 +85,7 @@ PARSE_SITES = [
 
 def check_positions(chk, pm):
     for kind, gname, present, prefix in PARSE_SITES:
-        for ctx in ('global', 'function'):
+        for ctx in ('global', 'function', 'continued'):
             sh = Shape(pm)
             sh.add('comment', '# comment')
             sh.add('expr', 'ok()')
@@ -93,11 +93,21 @@ def check_positions(chk, pm):
                 sh.add('function', 'function f():')
             for pk, pp in prefix:
                 sh.add(pk, pk, pp)
+            if ctx == 'continued':
+                # the statement is spread over three physical lines (with a comment in between): errors must name the FIRST one
+                first = sh.add('expr', 'first part ' + chr(92))
+                sh.lines[first].cont = 'text'
+                sh.add('comment', '# inside')
+                mid = sh.add('expr', 'second part ' + chr(92))
+                sh.lines[mid].cont = 'text'
             lid = sh.add(kind, f'<{kind} with a syntax error in its expression>', present)
             target_line = sh.lines[lid]
+            want_ix = first if ctx == 'continued' else lid
 
             def fail(x, lid=lid):
                 return (isinstance(x, Sym) and x.kind == 'group' and x.args[2] == lid) or (isinstance(x, ALine) and x.lid == lid)
+            if ctx == 'continued' and kind == 'elif':
+                continue
             st, val, it = pm.lower(sh.lines, fail_parse=fail)
             where = f'{kind}{"(" + ",".join(present) + ")" if present else ""} [{ctx}]'
             if st != 'error':
@@ -119,8 +129,9 @@ def check_positions(chk, pm):
                 if not (isinstance(a[1], ALine) and a[1].lid == lid):
                     problems.append(('C06.P', f'{kind}: error line is not the statement line', f'the error text is {a[1]!r}, not the full logical line of the statement'))
                 ix = lineno_index(a[3])
-                if ix != lid:
-                    problems.append(('C06.N', f'{kind}: line number', f'the reported line number is {a[3]!r}; expected start_line_number + {lid} (index of the first physical line)'))
+                if ix != want_ix:
+                    problems.append(('C06.N', f'{kind}: line number' + (' of a continued statement' if ctx == 'continued' else ''),
+                                     f'the reported line number is {a[3]!r}; expected start_line_number + {want_ix} (index of the FIRST physical line of the logical line)'))
                 col = lin(a[2])
                 problems += check_column(pm, target_line, gname, col, kind)
             for rule, cons, what in problems:
@@ -590,7 +601,7 @@ def check_caret(chk, pm):
 
 
 def run(chk):
-    chk.rule('C06.P', 'position fixing: inner syntax errors are re-raised with full line, line number and column', floor=14)
+    chk.rule('C06.P', 'position fixing: inner syntax errors are re-raised with full line, line number and column', floor=20)
     chk.rule('C06.C', 'column arithmetic agrees with the regex structure')
     chk.rule('C06.N', 'line numbers: start + first physical index of the reported logical line', floor=25)
     chk.rule('C06.U', 'blocks / continuations pending at end of input are rejected', floor=3)
